@@ -70,6 +70,10 @@ Lemma create_pair_Some s cp s' :
   create_pair s cp = Some s' → quotes s !! cp = None ∧ s' = set_quotes s (<[cp := None]> (quotes s)).
 Proof. unfold create_pair. destruct (quotes s !! cp); [done|]. by intros [= <-]. Qed.
 
+Lemma remove_pair_Some s cp s' :
+  remove_pair s cp = Some s' → is_Some (quotes s !! cp) ∧ s' = set_quotes s (delete cp (quotes s)).
+Proof. unfold remove_pair. destruct (quotes s !! cp) eqn:E; [|done]. intros [= <-]. eauto. Qed.
+
 Lemma step_err_unchanged s o s' : step s o = (s', false) → s' = s.
 Proof. unfold step. destruct (handle s o); by intros [= <-]. Qed.
 
